@@ -533,3 +533,15 @@ def oracle_C14(rec):
 
 
 ORACLES = {"C13": oracle_C13, "C14": oracle_C14}
+
+
+def shrink_candidates(rec):
+    c = case_from_record(rec)
+    F = np.asarray(c["F"], dtype=float)
+    n = len(F)
+    for i in range(n):
+        if n > 3:
+            keep = [j for j in range(n) if j != i]
+            yield dict(c, F=F[keep], n_remove=min(c["n_remove"], n - 1))
+    if c["n_remove"] > 0:
+        yield dict(c, n_remove=c["n_remove"] - 1)
